@@ -269,6 +269,7 @@ func c01Cases(run *vx.Run, rng *rand.Rand) []c01Case {
 
 func checkC01(args []string) {
 	run := vx.NewRun("C01", "translation_validation", args)
+	activeRun = run
 	run.Rule = "pictures from the classes of the property (size x colour count x content x alpha pattern x Go image type) x Method 0..6 x Quality boundary list x Exact x metadata: (a) webp.Encode then webp.Decode must reproduce every pixel (alpha-0 pixels may be transparent black unless Exact); (b) for pictures up to about 1100 pixels the emitted VP8L payload is also decoded by the independent TLA+ reader (spec/Vp8l.tla via TVVp8l) and must give the same pixels, so a matched encoder/decoder deviation is caught. distinct = distinct (picture class, options) cases"
 	run.Assumptions = []string{"for RGBA / Gray / Paletted sources the expected pixels are what the Go image type expresses through the standard colour model", "TLA+ decoding is limited to small pictures (32-bit TLC integers, speed)"}
 	rng := rand.New(rand.NewSource(run.Seed))
@@ -289,7 +290,7 @@ func checkC01(args []string) {
 			continue
 		}
 		run.Eval(name)
-		dec, derr := webp.Decode(bytes.NewReader(out))
+		dec, derr := guardedDecode(out)
 		sigCls := fmt.Sprintf("%s|colours=%d|alpha=%s|m%d|exact=%v|meta=%v", c.pic.typ, c.pic.colours, c.pic.alpha, o.Method, o.Exact, c.meta)
 		if derr != nil {
 			run.Violate("decode-fails|"+sigCls, name+": "+derr.Error(), name)
